@@ -468,11 +468,13 @@ check("C19", "model_checking",
       "every position, or more items than its size hint: that shard's call must fail. Transport arm: census of every shard-to-shard "
       "stream (InspectContext::ShardMessage), every record slot of every such stream made undecodable in a separate run: the "
       "receiving shard must fail, never return Ok. Schedule arm (config B): the same call on 2-3 shards under the preemption-"
-      "bounded DFS scheduler, every schedule inside the exploration window; the output must be the same vector on every schedule.",
+      "bounded DFS scheduler, every schedule inside the exploration window; the output must be the same vector on every schedule. reshard_aad (values stay, tags are resharded): 1-3 shards x 0..5 (9) records x 2 placements x every picker, and an error item at every position: values complete and in order, tags in the reference order on every shard of every helper.",
       [{"name": "grid", "config": "A", "test": "verif::c19::run", "timeout": {"quick": 900, "thorough": 3600},
         "require": {"any": {"honest_runs": 200, "error_runs": 20, "transport_faults_failed_loudly": 10}}},
        {"name": "prf", "config": "A", "test": "verif::c19p::run", "timeout": {"quick": 900, "thorough": 3600},
         "require": {"any": {"prf_faults_failed_loudly": 10}}},
+       {"name": "aad", "config": "A", "test": "query::runner::verif::c19a::run", "timeout": {"quick": 900, "thorough": 3600},
+        "require": {"any": {"reshard_aad_runs": 100}}},
        {"name": "sched", "config": "B", "test": "verif::c19s::run", "workers": {"quick": 16, "thorough": 16},
         "timeout": {"quick": 900, "thorough": 7200}, "require": {"any": {"schedules": 5000}}}],
       assumptions=["shuttle models every atomic as SeqCst; tokio mpsc / DashMap operations inside the transport execute atomically within a step",
